@@ -260,7 +260,7 @@ class EulerSolver(AdaptiveSolverBase):
                 if error_rel <= 1:  # error is sufficiently small
                     try:
                         # calculating the rate at putative new step
-                        rate = rhs_pde(step_small, t)
+                        rate = rhs_pde(step_small, t + dt_step)
                     except Exception:
                         # calculating the rate failed => retry with smaller dt
                         error_rel = np.nan
